@@ -24,7 +24,7 @@ LEVEL_TEXT = (
     "corresponding matrices; U^dagger U = 1 and U^dagger H U = H_tilde are checked through the same model. No proof."
 )
 LEVEL_NOTE = (
-    "Trusted: vlib/fock.py, vlib/refsolve.solve_hermitian (self-checking), numpy. Tolerance 1e-8 x magnitude. "
+    "Trusted: vlib/fock.py, vlib/refsolve.solve_hermitian (self-checking), numpy. Tolerance max(1e-8 x magnitude, 1e-13 x largest reference element so far x |H_0|). "
     "Coefficients with poles at integers (known finding K3 of C08) cannot arise: every reachable energy difference is "
     ">= 1/4 by construction. Bounds: orders <= 2 (quick) / 3 (thorough), words of <= 3 operators, <= 3 modes, <= ~500 states."
 )
@@ -383,6 +383,8 @@ def check_case(case, enforce_all=False):
     boundary_cols = [c for c in safe if any((v == 0 or k in ("s", "f")) for v, k in zip(space.occ(space.states[c]), b["kinds"]))]
     nontrivial_hit = False
     mats = {}
+    gmax = [1.0]
+    emax = max(1.0, float(np.abs(E).max()))
     for n in range(K + 1):
         for (i, j), (ht, u) in lib[n].items():
             for name, val, ref in (("H_tilde", ht, Href[(n,)]), ("U", u, Uref[(n,)])):
@@ -400,8 +402,12 @@ def check_case(case, enforce_all=False):
                 mats[(name, i, j, n)] = M
                 A, B = M[:, safe], blk[:, safe]
                 scale = max(1.0, float(np.abs(B).max()))
-                if not np.all(np.isfinite(A)) or float(np.abs(A - B).max()) > 1e-8 * scale:
-                    bad = np.argwhere(~(np.abs(A - B) <= 1e-8 * scale))
+                # rounding floor of the REFERENCE: it multiplies by H_0 explicitly, so an element that should vanish (an
+                # eliminated block) is the difference of products as large as (largest element so far) x |H_0|
+                gmax[0] = max(gmax[0], float(np.abs(Href[(n,)]).max()), float(np.abs(Uref[(n,)]).max()))
+                tol = max(1e-8 * scale, 1e-13 * gmax[0] * emax)
+                if not np.all(np.isfinite(A)) or float(np.abs(A - B).max()) > tol:
+                    bad = np.argwhere(~(np.abs(A - B) <= tol))
                     r, c = bad[0]
                     out.fail(
                         f"matrix-element-{name}",
